@@ -26,7 +26,7 @@ func init() {
 		Horizon: 90 * time.Second,
 		Body: func(x *vs.Exec, p explore.Params) {
 			x.Hold()
-			pr, err := newGRPCPair(x, grpcPairOpts{mux: true})
+			pr, err := newGRPCPair(x, grpcPairOpts{mux: true, mainAge: ms(p["mainage"])})
 			if err != nil {
 				x.Fail("ENGINE", "pair setup: %v", err)
 				return
@@ -177,6 +177,17 @@ func init() {
 						pingAll(when)
 					})
 				}
+				if a := ms(p["mainage"]); a > 0 {
+					// the plugin's main server recycles its connections: the control connection has gone idle by now; the next call
+					// on it makes gRPC connect again by itself (an unannounced stream), shortly before this establishment
+					x.Pause(a + 1500*time.Millisecond)
+					x.Go("host", func() {
+						if err := pr.gc.Ping(); err != nil {
+							x.Put("mainfail", fmt.Sprintf("Ping on the recycled control connection: %v", err))
+						}
+					})
+					x.Pause(300 * time.Millisecond)
+				}
 				if order == 'A' {
 					x.Go(adom, accept)
 					x.Pause(gap)
@@ -326,6 +337,12 @@ func init() {
 						out = append(out, explore.Params{"seq": a, "factory": f})
 					}
 					out = append(out, explore.Params{"seq": "pA0,hA0", "factory": f})
+				}
+			case "recycled-main":
+				// the plugin author's GRPCServer constructor sets MaxConnectionAge 2 s on the main server: the control connection
+				// is re-established by gRPC itself (a stream nobody announced) 300 ms before each brokered establishment
+				for _, a := range []string{"pA0", "pD0", "hA0", "hD0", "pA0,pA0", "pA0,hA0", "pD0,pA0"} {
+					out = append(out, explore.Params{"seq": a, "mainage": "2000", "notime": "1"})
 				}
 			case "short-connect":
 				// the first connection is dialled before it is accepted, with a 2 s connect timeout and back-off of the dialler's
